@@ -120,8 +120,9 @@ def learn_prune_traces(rep, tier, seed):
             # (relevance flags, ordered lists and costs of that life may not leak into learn / prune)
             meta["history"] = "fit(train) -> predict(train + noise)"
             try:
-                m.fit(A.copy(), B.copy())
-                m.predict(np.vstack([A.copy(), A[::-1] + 0.3]))
+                with H.time_limit(120):
+                    m.fit(A.copy(), B.copy())
+                    m.predict(np.vstack([A.copy(), A[::-1] + 0.3]))
             except Exception:
                 pass
         if i % 3 == 2 and kind == "learn":
@@ -131,7 +132,8 @@ def learn_prune_traces(rep, tier, seed):
             try:
                 ye_ = np.array([j % 2 for j in range(8)])
                 Xe_ = np.random.default_rng(5).normal(size=(8, Xt.shape[1])) * 0.05 + 20.0 * ye_[:, None]
-                m.learn(Xe_.copy(), ye_.copy(), Xe_[:4].copy() + 0.01, ye_[:4].copy(), n_iterations=2)
+                with H.time_limit(120):
+                    m.learn(Xe_.copy(), ye_.copy(), Xe_[:4].copy() + 0.01, ye_[:4].copy(), n_iterations=2)
             except Exception:
                 pass
         g.opf_accuracy = acc_w
@@ -140,14 +142,17 @@ def learn_prune_traces(rep, tier, seed):
         raised = 0
         np.random.seed(i)
         try:
-            if kind == "learn":
-                m.learn(A, B, C, D, n_iterations=iters)
-            else:
-                m.prune(A, B, C, D, n_iterations=iters)
+            with H.time_limit(240):
+                if kind == "learn":
+                    m.learn(A, B, C, D, n_iterations=iters)
+                else:
+                    m.prune(A, B, C, D, n_iterations=iters)
         except Exception as ex:
             import traceback
             raised = 1
             meta["exception"] = "%s: %s" % (type(ex).__name__, str(ex)[:160])
+            if isinstance(ex, H.CallTimeout):
+                rep.violation("SupervisedOPF." + kind, "call_did_not_return", kind, {"case": meta})
             inner = traceback.extract_tb(ex.__traceback__)[-1].name
             labels_now = set(int(v) for v in D)
             if inner == "opf_accuracy" and labels_now != set(range(max(int(v) for v in np.concatenate([B, D])) + 1)):
